@@ -53,6 +53,7 @@ SPANS = os.path.join(VERIF, "tools", "spans", "target", "release", "spans")
 KEEP_DERIVES = ["Clone", "Copy", "PartialEq", "Eq"]
 
 TRACING_MACROS = {
+    "log_channel_event",   # macro_rules! in tcp/client.rs: expands to tracing::info! / tracing::debug! only
     "tracing::info", "tracing::warn", "tracing::error", "tracing::debug", "tracing::trace",
 }
 SPAN_MACROS = {"tracing::info_span", "tracing::warn_span", "tracing::error_span", "tracing::debug_span", "tracing::trace_span"}
@@ -61,7 +62,7 @@ SPAN_MACROS = {"tracing::info_span", "tracing::warn_span", "tracing::error_span"
 R1_ALLOWED_CALLS = {
     "new", "get", "get_value", "payload", "as_millis", "from", "len", "value", "to_string", "as_str",
     "display", "Some", "format_args", "is_empty", "into", "clone", "as_ref", "header", "kind", "ip",
-    "destination", "function", "details", "name", "as_secs_f32", "as_secs", "to_u16", "get_function",
+    "destination", "function", "details", "name", "as_secs_f32", "as_secs", "to_u16", "get_function", "as_micros",
 }
 
 
@@ -512,6 +513,15 @@ class Unit:
             for wi, w in enumerate(cl.get("wilds", [])):
                 edits.append(Edit(w[0], w[1], lambda r, ci=ci, wi=wi: f"_c{ci}_{wi}"))
                 self.log("R14", relfile, src, w[0], f"{path}: closure parameter `_` named `_c{ci}_{wi}`")
+        # R19: `mut x: T` parameter of an async fn -> `x: T` + `let mut x = x;` (the installed Verus loses the `mut` in the async desugaring)
+        r19 = []
+        if it.get("is_async") and it["body"] and "ext_body" not in opts:
+            for prm in it["params"]:
+                if prm["name"].startswith("mut ") and "ty" in prm:
+                    nm = prm["name"][4:].strip()
+                    edits.append(Edit(prm["span"][0], prm["ty"][0], lambda r, nm=nm: f"{nm}: "))
+                    r19.append(nm)
+                    self.log("R19", relfile, src, prm["span"][0], f"{path}: `mut {nm}` parameter rebound at function entry")
         # named return
         if it["ret"]:
             rs, re_ = it["ret"]
@@ -554,6 +564,13 @@ class Unit:
                     def fsel(r, ed=ed, ts=ts, te=te, stmt=had_semi):
                         inner = r.render_inside(ed, ts, te)     # nested edits (R1, R10, ...) apply inside the arms
                         inner = strip_tracing(inner, f"{relfile}:{line_of(src, ts)}", lambda note: self.log("R1", relfile, src, ts, note))
+                        if "r10" in opts:
+                            # R10 inside the unparsed macro body: only the simple form `ident?`
+                            conv = "e__" if "r3id" in opts else "From::from(e__)"    # r3id: the error types are equal (identity conversion)
+                            inner, nsub = re.subn(r"\b([A-Za-z_][A-Za-z0-9_]*)\?(?=\s*[;)\n}])",
+                                                  r"(match \1 { Ok(v__) => v__, Err(e__) => { return Err(" + conv + r") } })", inner)
+                            if nsub:
+                                self.log("R10", relfile, src, ts, f"{nsub} `ident?` inside select! -> match expansion")
                         arms = parse_select(inner)
                         # cancellation: an arm that loses while it was reading a frame leaves the reader in a state allowed by
                         # next_frame's (proved) loop invariant - modelled by `cancelled_next_frame`
@@ -664,8 +681,8 @@ class Unit:
                 vac = f" assert(false); /*VAC:{vid}*/ "
                 self.vac_ids.append(vid)
                 self.vac_files[vid] = relfile
-            if entry.strip() or vac:
-                txt = ""
+            if entry.strip() or vac or r19:
+                txt = "".join(f" let mut {nm} = {nm}; " for nm in r19)
                 if vac:
                     txt += f" proof {{ {vac} }} "
                 if entry.strip():
